@@ -317,4 +317,4 @@ def replay(ctx, path):
     print(json.dumps({"setting": c["setting"], "switch": c["switch"], "before": c["before"], "after": c["after"],
                       "observed": res, "fails": [[f.key, f.what] for f in fails]}, indent=1, default=str))
     known = [k["key"] for k in ctx.findings.get("known", [])]
-    return 1 if any(f.key not in known for f in fails) else 0
+    return 1 if fails else 0
